@@ -706,6 +706,14 @@ func runHistory(payload string) string {
 			}
 		}
 	}
+	// (0b) atlases DERIVED from the one under test with the other key orders, and used: an Atlas is a value, deriving
+	// one must leave the original as it was
+	for _, mode := range sortModes {
+		atlD := atl.WithMapMorphism(atlas.MapMorphism{KeySortMode: mode})
+		for _, it := range its {
+			safely(func() error { _, err := refmt.MarshalAtlased(eo, it.v.Interface(), atlD); return err })
+		}
+	}
 	// (1) long-lived marshaller
 	var stream bytes.Buffer
 	var outs []string
